@@ -115,7 +115,12 @@ def run(prop, seed, tier, only=None):
         for base in range(0, len(structs), chunk):
             part = structs[base:base + chunk]
             text = F.Pool.TEXT + ''.join(t for t, _ in part) + (''.join(t for t, _ in unions) if base == 0 else '')
-            mod, nodes = lib.compile_python(text, sc, 'f%d' % base)
+            try:
+                mod, nodes = lib.compile_python(text, sc, 'f%d' % base)
+            except lib.CompileError as ex:
+                # a legal schema family that prophyc rejects, or for which it writes a module that does not import
+                failures.append({'key': 'build', 'schema': text, 'struct': '-', 'value': '-', 'what': str(ex)[:1500]})
+                continue
             byname = {n.name: n for n in nodes}
             for txt, st in part:
                 _check_struct(prop, txt, st, getattr(mod, st.name), byname[st.name], rng, fail, 3 if tier == 'quick' else 6)
